@@ -148,7 +148,16 @@ def build(case):
                 pg = np.asarray(l["polygon"], dtype=np.float64)
             id_mode = case.get("line_ids", "page")
             lid = "l%d" % n if id_mode == "page" else (None if id_mode == "none" else "l%d" % len(reg.lines))
-            reg.lines.append(TextLine(id=lid, baseline=bl, polygon=pg, heights=[20, 8], transcription=l["text"]))
+            tl = TextLine(id=lid, baseline=bl, polygon=pg, heights=[20, 8], transcription=l["text"])
+            if n % 3 != 2:
+                # the sorter runs after recognition as well: lines then carry their OCR results
+                tl.crop = np.full((4, 6, 3), n % 251, dtype=np.uint8)
+                tl.logits = ("logits-of-line", n)
+                tl.characters = ["a", "b", str(n)]
+                tl.logit_coords = [1, 5 + n]
+                tl.transcription_confidence = 0.25 + (n % 3) / 4.0
+                tl.index = n
+            reg.lines.append(tl)
             n += 1
         pl.regions.append(reg)
     return pl
@@ -188,7 +197,8 @@ def body(ctx, case):
     pl = build(case)
     regs_before = list(pl.regions)
     snap = [(r, r.id, r.transcription, np.array(r.polygon, dtype=np.float64), list(r.lines),
-             [(l, l.id, l.transcription, np.array(l.baseline), np.array(l.polygon)) for l in r.lines]) for r in pl.regions]
+             [(l, l.id, l.transcription, np.array(l.baseline), np.array(l.polygon),
+               (l.crop, l.logits, l.characters, l.logit_coords, l.transcription_confidence, l.index, list(l.heights))) for l in r.lines]) for r in pl.regions]
     desc = lambda: "case=%r" % (case,)
     ctx.event("sorter:" + case["sorter"])
     scale = 1.0 + max([abs(float(x)) for r in case["regions"] for p in r["polygon"] for x in p] + [1.0])
@@ -227,8 +237,11 @@ def body(ctx, case):
         ctx.check(len(r.lines) == len(lines) and all(a is b for a, b in zip(r.lines, lines)), "region_lines_changed", desc)
         ctx.check(same_points(r.polygon, poly, tol), "region_geometry_changed",
                   lambda: "region %r polygon %r was %r; " % (rid, np.asarray(r.polygon).tolist(), poly.tolist()) + desc())
-        for (l, lid, lt, bl, lp) in linfo:
+        for (l, lid, lt, bl, lp, extra) in linfo:
             ctx.check(l.id == lid and l.transcription == lt, "line_id_or_text_changed", desc)
+            now = (l.crop, l.logits, l.characters, l.logit_coords, l.transcription_confidence, l.index, list(l.heights))
+            ctx.check(all((a is b) or (not isinstance(a, np.ndarray) and not isinstance(b, np.ndarray) and a == b) for a, b in zip(now, extra)), "line_lost_its_recognition_results",
+                      lambda: "line %r: crop/logits/characters/window/confidence/index/heights were %r, are %r; " % (lid, extra[1:], now[1:]) + desc())
             ctx.check(same_points(l.baseline, bl, tol) and len(l.baseline) == len(bl), "line_baseline_changed",
                       lambda: "line %r baseline %r was %r; " % (lid, np.asarray(l.baseline).tolist(), bl.tolist()) + desc())
             ctx.check(same_points(l.polygon, lp, tol), "line_polygon_changed", lambda: "line %r; " % lid + desc())
